@@ -410,25 +410,51 @@ def analyze_conn(rec):
         ob("race_chunks_judged")
         ob("race_rounds_judged_by_reference_framer", len(reqs) // 2)
     if st:
-        ob("race_stall_suspects_judged")
-        kick = rec["reqs"][st["kick"]] if st["kick"] < len(rec["reqs"]) else None
-        parked = [q for q in reqs[st["first_unanswered"]:st["kick"]]]
-        started_after_kick = [q for q in parked if q.i in answered and kick and
-                              int(q.q.get("h_enter") or 0) > int(kick["sent_ns"])]
-        if started_after_kick and st.get("others_progress", 0) > 0:
-            q = started_after_kick[0]
-            outcome = "parked-until-next-input"
-            viol("C16:stall:request-parked-until-next-input",
-                 "request %d was completely sent, stayed unanswered with the connection open for %d ms while other connections of the same "
-                 "server completed %d requests, and its handler was started only %.1f ms AFTER one more request was written on the same "
-                 "connection (then both were answered, in order): the server had parked it until the next input"
-                 % (q.i, st["stall_ms"], st["others_progress"], (int(q.q["h_enter"]) - int(kick["sent_ns"])) / 1e6),
-                 dict(stall=st, parked_request=q.i, parked_token=q.token,
-                      sent_ns=q.q.get("sent_ns"), kick_sent_ns=kick["sent_ns"], h_enter=q.q.get("h_enter"),
-                      previous_request_handler_exit=rec["reqs"][q.i - 1].get("h_exit") if q.i else None,
-                      wire_order=seq[-6:]))
-        elif all(q.i in answered for q in parked):
-            ob("race_stall_suspects_slow_not_parked")   # handler had started before the kick: slowness
+        # The verdict is made on the FIRST unanswered request F of the connection (requests of one
+        # connection are processed strictly one after the other, so nothing behind F can start
+        # before F has finished). F was PARKED by the server iff
+        #   (1) its handler had not been entered when the kick was written (snapshot taken by the
+        #       harness right before the kick, after 3 x stall_ms of silence) — a handler that was
+        #       entered before the kick means F was running or its thread was descheduled: slowness;
+        #   (2) no handler of this connection was executing at any time during the stall window;
+        #   (3) other connections of the same server completed requests during the whole window and
+        #       during its last two thirds (server, I/O thread and pool alive);
+        #   (4) after the kick F's handler was entered promptly (< 250 ms) and F and the kick were
+        #       answered, in order.
+        ob("race_stall_kicks_judged")
+        f_i, k_i = st["first_unanswered"], st["kick"]
+        kick = rec["reqs"][k_i] if k_i < len(rec["reqs"]) else None
+        F = reqs[f_i] if f_i < len(reqs) else None
+        if F is not None and kick is not None:
+            t_kick = int(st.get("t_kick_ns") or kick["sent_ns"])
+            f_enter_final = int(F.q.get("h_enter") or 0)
+            entered_before_kick = bool(st.get("first_unanswered_h_enter_at_kick")) or (0 < f_enter_final <= t_kick)
+            # the stall window = the silence before the kick: from the last byte received (or F's write) to the kick
+            window_start = max(int(F.q.get("sent_ns") or 0), t_kick - int(st.get("silent_ms_before_kick", st["stall_ms"])) * 1000000 + 1000000)
+            executing = [q.i for q in reqs[:k_i] if int(q.q.get("h_enter") or 0) and int(q.q["h_enter"]) <= t_kick and
+                         (not int(q.q.get("h_exit") or 0) or int(q.q["h_exit"]) >= window_start)]
+            alive = st.get("others_progress", 0) > 0 and st.get("others_progress_last_two_thirds", 0) > 0
+            lag_ms = (f_enter_final - t_kick) / 1e6 if f_enter_final else None
+            answered_all = all(q.i in answered for q in reqs[f_i:k_i + 1])
+            facts = dict(stall=st, first_unanswered=f_i, token=F.token, sent_ns=F.q.get("sent_ns"), t_kick_ns=t_kick,
+                         h_enter=F.q.get("h_enter"), h_exit=F.q.get("h_exit"), handler_entered_before_kick=entered_before_kick,
+                         handlers_of_this_connection_executing_in_window=executing, handler_entry_after_kick_ms=lag_ms,
+                         wire_order=seq[-6:])
+            if entered_before_kick or executing:
+                ob("race_stall_kicks_slow_handler_was_entered_before_the_kick")
+            elif not alive:
+                ob("race_stall_kicks_server_made_no_progress_at_all")
+            elif answered_all and lag_ms is not None and 0 < lag_ms < 250:
+                outcome = "parked-until-next-input"
+                viol("C16:stall:request-parked-until-next-input#event",
+                     "request %d was completely sent and stayed unanswered with the connection open for %d ms; its handler had not been entered "
+                     "and no handler of this connection was running, while other connections of the same server completed %d requests (%d in the "
+                     "last two thirds); %.1f ms after one more request was written on the same connection its handler was entered and both were "
+                     "answered, in order: the server had parked it until the next input"
+                     % (f_i, st.get("silent_ms_before_kick", st["stall_ms"]), st["others_progress"],
+                        st["others_progress_last_two_thirds"], lag_ms), facts)
+            elif answered_all:
+                ob("race_stall_kicks_answered_long_after_the_kick")  # not attributable to the kick
     if not V:
         ob("connections_fully_conforming")
 
@@ -494,27 +520,30 @@ def _plan(tier, seed):
             jobs.append((flavor, dict(**{"from": base + 100000 + i * slow_per}, count=slow_per, defh=i % 2, sendcap=0,
                                       profile="slow", silence=silence * 2, closewait=closewait, settle=settle,
                                       bigmax=bigmax)))
-    def race(flavor, n_proc, rounds, base, stall=1000, silence=8000, hammers=0, conns=8):
+    def race(flavor, n_proc, rounds, base, stall=700, silence=8000, hammers=0, conns=8):
         for i in range(n_proc):
             jobs.append((flavor, dict(**{"from": base + 200000 + i}, count=1, defh=0, sendcap=0, profile="race", silence=silence,
                                       closewait=2500, settle=150, bigmax=0, rounds=rounds, stall=stall,
                                       hammers=hammers if i % 2 else 0, raceconns=conns)))
     if tier == "thorough":
         race("plain", 6, 20000, 0, hammers=1)
-        race("asan", 2, 3000, 10000, stall=2500, silence=15000)
-        race("tsan", 2, 600, 20000, stall=3000, silence=20000, conns=4)
+        race("asan", 2, 3000, 10000, stall=2000, silence=15000)
+        race("tsan", 2, 600, 20000, stall=2500, silence=20000, conns=4)
         add("plain", 16, 60, 0, slow_procs=6, slow_per=12)
         add("asan", 16, 25, 10000, slow_procs=2, slow_per=10, silence=15000, closewait=5000, settle=300)
         add("tsan", 16, 25, 20000, slow_procs=2, slow_per=10, silence=20000, closewait=6000, settle=400)
     else:
         race("plain", 2, 4000, 0)
-        race("tsan", 1, 250, 20000, stall=3000, silence=20000, conns=4)
+        race("tsan", 1, 250, 20000, stall=2500, silence=20000, conns=4)
         add("plain", 10, 7, 0, slow_procs=2, slow_per=3)
         add("tsan", 5, 4, 20000, slow_procs=0, silence=20000, closewait=6000, settle=400)
     return jobs
 
 
-def _merge(ctx, out, confirm_list):
+PARKED_KEY = "C16:stall:request-parked-until-next-input"
+
+
+def _merge(ctx, out, confirm_list, parked=None):
     rr = out["rr"]
     ctx.ingest(rr, where="(%s)" % rr.flavor)
     if out["bad"]:
@@ -532,6 +561,9 @@ def _merge(ctx, out, confirm_list):
             ctx.case(a["sig"], a["sample"])
         for key, what, detail, confirm in a["viol"]:
             detail = dict(detail, flavor=rr.flavor, argv=rr.argv)
+            if key == PARKED_KEY + "#event":
+                (parked if parked is not None else []).append((out, what, detail))
+                continue
             if confirm:
                 confirm_list.append((out, a, (key, what, detail)))
             else:
@@ -546,9 +578,31 @@ def run(ctx):
     jobs = []
     for n, (fl, job) in enumerate(plan):
         jobs.append(lambda fl=fl, job=job, n=n: _run_job(ctx, bins[(NAME, fl)], job, "p%d" % n))
-    confirm = []
+    confirm, parked = [], []
     for out in vf.run_many(ctx, jobs):
-        _merge(ctx, out, confirm)
+        _merge(ctx, out, confirm, parked)
+
+    # Parked-request events (race mode). One event alone could be a thread or vCPU frozen for
+    # seconds right before the handler entry that happens to resume just after the kick; a lost
+    # wake-up in the server shows again. Two or more events in this run are a violation; a single
+    # event is re-run once (same race job, twice the rounds) and counts only if it shows again.
+    ctx.obs("race_parked_request_events", len(parked))
+    if len(parked) == 1:
+        out0, what0, detail0 = parked[0]
+        job = dict(out0["job"])
+        job["rounds"] = int(job["rounds"]) * 2
+        again = _run_job(ctx, out0["binary"], job, "re-race")
+        ctx.obs("isolated_reruns")
+        more = []
+        _merge(ctx, again, confirm, more)
+        if more:
+            parked += more
+        else:
+            ctx.obs("race_single_parked_event_not_reproduced")
+            ctx.extra["race_single_parked_event_not_reproduced"] = dict(what=what0, detail={k: v for k, v in detail0.items() if k != "requests"})
+    if len(parked) >= 2:
+        for out0, what0, detail0 in parked:
+            ctx.violation(PARKED_KEY, what0, dict(detail0, parked_events_in_this_run=len(parked)))
 
     # verdicts that rest on a wall-clock bound (silence, missing EOF) or on a pacer/framer
     # disagreement: re-run that scenario once, alone (doubled bounds), and keep only what shows
@@ -612,7 +666,7 @@ def run(ctx):
         "a 204/304 response and every response to HEAD must put no body bytes on the wire whatever the handler left in the response object (RFC 9112 6.3: such a message ends at the empty line); both handler styles are driven: body cleared by the handler, and body set/inherited and left in place",
         "a connection on which nothing arrives for the silence bound (8 s plain, 15-20 s sanitizers; doubled on the isolated re-run) while responses are outstanding will never deliver them; likewise 2.5 s (5-6 s sanitizers; doubled on the re-run) for the close after a completely received Connection: close response",
         "token-less HEAD answers (built-in 404, 405) are attributed by position and therefore only sent on sequential connections",
-        "race mode: a request whose handler is entered only after a further request was written on the same connection, >= 1 s (2.5-3 s sanitizers) after it was completely sent while other connections made progress, was parked by the server, not slow",
+        "race mode: the FIRST unanswered request of a connection whose handler had not been entered after 3 x the stall bound (2.1 s plain, 6-7.5 s sanitizers) of silence with no handler of that connection running, while other connections progressed throughout, and whose handler is entered < 250 ms after one more request is written on that connection, was parked by the server; a handler entered before the kick, or an answer arriving without the kick, is slowness",
         "the client never half-closes and never sends after a Connection: close request, so a server-side close is always the server's decision",
     ]
     ctx.require_obs("connections", "pipelined_connections", "sequential_connections", "responses_framed", "bodies_verified_exact",
@@ -663,5 +717,5 @@ def replay(ctx, path):
         if a["sig"] is not None:
             ctx.case(a["sig"], a["sample"])
         for key, what, detail, confirm in a["viol"]:
-            ctx.violation(key, what, dict(detail, flavor=flavor, argv=rr.argv))
+            ctx.violation(key.replace("#event", ""), what, dict(detail, flavor=flavor, argv=rr.argv))
     ctx.rule = "replay of scenario %s (%s)" % (d.get("scn"), rp.get("key"))
